@@ -13,14 +13,35 @@ import time
 VERIF = os.path.dirname(os.path.dirname(os.path.abspath(__file__)))
 SEED = os.path.join(VERIF, "seeded")
 # changes found by the check of another property as well (established during development)
-ALSO = {"C01-2": ["C04"], "C14-2": ["C18"], "C17-3": ["C06"]}
+ALSO = {"C01-2": ["C04"], "C14-2": ["C18"], "C17-3": ["C06"], "C01-6": ["C04"], "C01-7": ["C08"], "C14-4": ["C03"], "C18-7": ["C19"], "C20-6": ["C01", "C16"]}
+
+THOROUGH = set()
+SEEDS = {"C04-7": "3"}     # the quick tier rotates the twin workspace by seed: evalOrder's examples are in rotation 3
 
 
 def main():
-    want = sys.argv[1:]
-    mpath = os.path.join(SEED, "MATRIX.json")
+    # --shard i/n: every n-th entry starting at i (several workers, each with VERIF_REPO pointing at its own worktree;
+    # the results are written to MATRIX.<i>.json and merged with --merge)
+    args = sys.argv[1:]
+    shard = None
+    if args and args[0] == "--merge":
+        merged = json.load(open(os.path.join(SEED, "MATRIX.json"))) if os.path.exists(os.path.join(SEED, "MATRIX.json")) else {}
+        for f in sorted(os.listdir(SEED)):
+            if re.match(r"^MATRIX\.\d+\.json$", f):
+                merged.update(json.load(open(os.path.join(SEED, f))))
+                os.remove(os.path.join(SEED, f))
+        json.dump(merged, open(os.path.join(SEED, "MATRIX.json"), "w"), indent=1, sort_keys=True)
+        print("merged", len(merged))
+        return
+    if args and args[0] == "--shard":
+        shard = tuple(int(x) for x in args[1].split("/"))
+        args = args[2:]
+    want = args
+    mpath = os.path.join(SEED, "MATRIX.json" if not shard else "MATRIX.%d.json" % shard[0])
     matrix = json.load(open(mpath)) if os.path.exists(mpath) else {}
     ids = sorted(d for d in os.listdir(SEED) if re.match(r"^C\d\d-\d$", d))
+    if shard:
+        ids = [x for k, x in enumerate(ids) if k % shard[1] == shard[0]]
     for sid in ids:
         if want and sid not in want:
             continue
@@ -28,13 +49,18 @@ def main():
         patch = os.path.join(d, "patch_ported.diff") if os.path.exists(os.path.join(d, "patch_ported.diff")) else os.path.join(d, "patch.diff")
         checks = [sid.split("-")[0]] + ALSO.get(sid, [])
         t = time.time()
-        r = subprocess.run(["python3", os.path.join(VERIF, "bin", "muttest.py"), patch] + checks, capture_output=True, text=True)
+        env = dict(os.environ)
+        if sid in SEEDS:
+            env["VERIF_SEED"] = SEEDS[sid]
+        if sid in THOROUGH:
+            env["VERIF_MUT_TIER"] = "thorough"      # the quick tier rotates the part of the corpus that holds this change's subject
+        r = subprocess.run(["python3", os.path.join(VERIF, "bin", "muttest.py"), patch] + checks, capture_output=True, text=True, env=env)
         res = {}
         for c in checks:
             m = re.search(r"^%s (DETECTED|MISSED|INFRA)" % c, r.stdout, re.M)
             res[c] = m.group(1) if m else "NOT-RUN"
         first = re.search(r"what: (.*)", r.stdout)
-        matrix[sid] = {"results": res, "first_violation": first.group(1)[:300] if first else None, "wall_s": round(time.time() - t),
+        matrix[sid] = {"results": res, "tier": "thorough" if sid in THOROUGH else "quick", "seed": SEEDS.get(sid, "1"), "first_violation": first.group(1)[:300] if first else None, "wall_s": round(time.time() - t),
                        "note": r.stdout.strip().splitlines()[0][:200] if "NOT-RUN" in res.values() and r.stdout.strip() else None}
         print(sid, res, matrix[sid]["wall_s"], flush=True)
         json.dump(matrix, open(mpath, "w"), indent=1, sort_keys=True)
